@@ -58,6 +58,23 @@ def run(ck):
             for mode in ('prevalence', 'zero_one'):
                 desc = dict(K=K, counts=counts, mode=mode)
                 conv = ClassificationConverter(mode=mode, n_classes=K, labels=lab_t if len(labels) % 2 else lab_t.reshape(-1, 1))
+                # history: every third converter has already been USED before it is examined — it encoded labels and decoded batches given in
+                # float64 / float16 / bfloat16 (reduced-precision predictions, e.g. under autocast) and with a 1-D input; the statements below are
+                # about the converter, whatever it did before
+                used = (len(cases) % 3 == 1)
+                if used:
+                    w0 = conv.labels_to_numerical(torch.arange(K)).shape[1]
+                    for dt in (torch.float64, torch.float16, torch.bfloat16, torch.float32):
+                        zz = torch.tensor(rng.standard_normal((3, w0)), dtype=torch.float32).to(dt)
+                        try:
+                            conv.numerical_to_probas(zz); conv.numerical_to_labels(zz)
+                            if mode == 'prevalence':
+                                conv.numerical_to_probas(zz[0])
+                        except Exception as e:
+                            ck.violation(f'decoding a {dt} batch raised {e!r} on {desc}', dict(desc, dtype=str(dt)), key=json.dumps(dict(site='converter', mode=mode, what='raise-' + str(dt))))
+                    conv.labels_to_numerical(lab_t.to(torch.int32)); conv.labels_to_numerical(lab_t)
+                    ck.count('converter used before (f64/f16/bf16 decodes)')
+                desc = dict(desc, used_before=used)
                 ck.case(desc, nontrivial=(K >= 3 or 0 in counts), sample=(K == 3 and 0 in counts and mode == 'prevalence'))
                 ck.count(f'K={K}'); ck.count(mode); ck.count('has-zero-count' if 0 in counts else 'all-present')
                 probs = []
